@@ -5,6 +5,7 @@ import (
 	"fmt"
 	"io"
 	"os"
+	"sync"
 
 	"github.com/go-git/go-billy/v5"
 	"github.com/go-git/go-billy/v5/util"
@@ -20,6 +21,9 @@ type PersistedClock struct {
 	*MemClock
 	root     billy.Filesystem
 	filePath string
+
+	// writeMu serializes the writes of the clock file
+	writeMu sync.Mutex
 }
 
 // NewPersistedClock create a new persisted Lamport clock
@@ -105,6 +109,11 @@ func (pc *PersistedClock) read() error {
 }
 
 func (pc *PersistedClock) Write() error {
-	data := []byte(fmt.Sprintf("%d", pc.counter))
+	// The value is read under the lock: without it, two concurrent Increment could write
+	// their values in the opposite order and leave the older one in the file.
+	pc.writeMu.Lock()
+	defer pc.writeMu.Unlock()
+
+	data := []byte(fmt.Sprintf("%d", pc.Time()))
 	return util.WriteFile(pc.root, pc.filePath, data, 0644)
 }
